@@ -159,6 +159,66 @@ def call_merge_prefers_result(ctx, F):
     return cells
 
 
+def call_merge_keeps_pending_mark(ctx, F):
+    """C05 / C06: merge(RequestSentBy, RequestSentBy) keeps the PREVIOUS operand.  The previous data is the peer's own:
+    its `RequestSentBy(PeerIdWithCallId{self, id})` is the only record that call `id` was handed to the host; if the
+    incoming state replaced it the call would be requested again under a new id and the result arriving under the
+    old id would match no pending call."""
+    f, cells = call_cells(ctx, F)
+    outs = cells.get(("RequestSentBy", "RequestSentBy"), set())
+    o = next(iter(outs)) if len(outs) == 1 else None
+    ctx.require(o is not None and o[0] == "prev" and o[1] == "Previous", "R-TABLE", "call-merge:pending-mark-kept",
+                "merge(RequestSentBy, RequestSentBy) keeps the previous (own) pending mark, scheme Previous",
+                "merge_call_results(RequestSentBy, RequestSentBy) is %s: the peer's own pending-request mark (sender + call id) can be "
+                "replaced by the incoming state, so the call is requested again and its first result is orphaned" % sorted(map(str, outs)),
+                sample={"cell": ["RequestSentBy", "RequestSentBy"], "outcome": str(o)})
+
+
+def positions_mapping_table(ctx, F):
+    """prepare_positions_mapping(scheme): Previous -> new_to_prev_pos[new] = prev_slider.position-1 only; Current ->
+    new_to_current_pos[new] = current_slider.position-1 only; Both -> both, each from its own slider.  The fold FSM
+    finds the fold lore of a merged stream value through these maps (meet_iteration_start); a wrong source position
+    makes it miss the other side's iteration, whose results are then silently dropped."""
+    f = F.fn("position_mapping::prepare_positions_mapping")
+    prov = Prov(f)
+    rows = {}
+    for st in lib.enumerate_paths(f, prov):
+        var = st.variants.get((1, ()))
+        pp = PathProv(f, st.blocks)
+        ins = []
+        for c in st.calls:
+            if c.path.endswith("::insert"):
+                recv = pp.operand(c.args[0])
+                key = pp.operand(c.args[1])
+                val = pp.operand(c.args[2])
+                which = "prev" if lib.mentions_field(recv, "new_to_prev_pos") else "current" if lib.mentions_field(recv, "new_to_current_pos") else "?"
+                src = ("prev" if lib.mentions_call(val, "DataKeeper::prev_slider") else "") + ("current" if lib.mentions_call(val, "DataKeeper::current_slider") else "")
+                shape = any(x[0] == "call" and x[1].endswith("::sub") and x[2][1][0] == "const" and x[2][1][2] == "1" and lib.mentions_call(x[2][0], "TraceSlider::position") for x in walk(val)) or \
+                    any(x[0] == "bin" and x[1] in ("Sub", "SubWithOverflow") and x[3][0] == "const" and x[3][2] == "1" for x in walk(val))
+                keyok = lib.mentions_call(key, "result_trace_next_pos")
+                ins.append((which, src, shape, keyok))
+        rows[var] = sorted(ins)
+    want = {"Previous": [("prev", "prev", True, True)], "Current": [("current", "current", True, True)],
+            "Both": [("current", "current", True, True), ("prev", "prev", True, True)]}
+    ctx.require(rows == want, "R-TABLE", "positions-mapping", "scheme -> (map, slider) pairs: Previous->prev, Current->current, Both->both, each position()-1 keyed by the next result position",
+                "prepare_positions_mapping table is %s, expected each map to be filled from its own slider's position()-1 under the next result-trace position" % rows,
+                sample={"table": {str(k): [list(x) for x in v] for k, v in rows.items()}})
+    # consumer: FoldFSM::meet_iteration_start looks the prev lore up through new_to_prev_pos and the current lore through new_to_current_pos
+    m = F.fn("fold_fsm::FoldFSM::meet_iteration_start")
+    mp = Prov(m)
+    pr = m.calls_to("FoldFSM::prepare")
+    ok = len(pr) == 1
+    if ok:
+        a = [mp.operand(x) for x in pr[0].args]
+        def lore_ok(e, posmap, fold):
+            cl = [x for x in walk(e) if x[0] == "closure"]
+            return lib.mentions_field(e, posmap) and any(lib.mentions_field(u, fold) for x in cl for u in x[2])
+        ok = lore_ok(a[1], "new_to_prev_pos", "prev_fold") and lore_ok(a[2], "new_to_current_pos", "current_fold") and \
+            not lib.mentions_field(a[1], "new_to_current_pos") and not lib.mentions_field(a[2], "new_to_prev_pos")
+    ctx.require(ok, "R-FLOW", "positions-mapping:consumer", "meet_iteration_start: prev lore via new_to_prev_pos/prev_fold, current lore via new_to_current_pos/current_fold",
+                "FoldFSM::meet_iteration_start no longer pairs new_to_prev_pos with prev_fold and new_to_current_pos with current_fold")
+
+
 def call_scheme_agrees(ctx, F):
     """The PreparationScheme reported with a merged call names the side whose operand is returned."""
     f, cells = call_cells(ctx, F)
